@@ -9,7 +9,7 @@
 From Coq Require Import ZArith List Bool.
 From LV Require Import Ws.WsDefs Ws.Base64Defs Ws.Sha1Defs Ws.WsSpecDefs Ws.WsDecoderModel Ws.WsEncoderModel Ws.WsHandshakeModel
   Ws.WsTransparency Ws.WsRefuted Ws.WsPartial Ws.Base64Proofs Ws.WsDecoderProofs4 Ws.WsDecoderProofs6
-  Ws.WsEncoderProofs Ws.WsStrictProofs Ws.WsHandshakeProofs Ws.WsSafetyProofs Gen.Consts_C09 Gen.Strs_C09.
+  Ws.WsEncoderProofs Ws.WsStrictProofs Ws.WsHandshakeProofs Ws.WsSafetyProofs Ws.WsDrainProofs Gen.Consts_C09 Gen.Strs_C09.
 Import ListNotations.
 Local Open Scope Z_scope.
 
@@ -210,3 +210,26 @@ Example C09_handshake_answer_nonvacuous :
   ws_handshake ascii_req =
   HsOk (Some [47; 119; 115]) true (hs_proto_0 ++ rfc_accept ++ hs_proto_1 ++ s_base64 ++ hs_proto_2).
 Proof. exact handshake_example. Qed.
+
+(* ---- the drain obligation of both server loops (rfbCheckFds, clientInput):
+   `do rfbProcessClientMessage(cl) while (webSocketsHasDataInBuffer(cl))` ----
+   has_data w = (0 < readlen) = webSocketsHasDataInBuffer.  From every G state, for every caller length
+   >= 1: repeating decode calls while has_data holds ends within readlen calls with has_data = false, does not
+   touch the socket (reader state unchanged: the buffered bytes are invisible to select(), so a loop that
+   blocks while has_data holds leaves them undelivered until the peer sends something else), and hands out
+   exactly the readlen buffered bytes, every call returning data. *)
+Theorem C09_drain_complete : forall w i len, G w -> 1 <= len ->
+  let '(rs, w', i') := drain (Z.to_nat (w_readlen w)) w i len in
+  has_data w' = false /\ i' = i /\ G w' /\ forallb call_ok rs = true /\
+  zlen (delivered rs) = Z.max 0 (w_readlen w) /\ zlen rs <= Z.max 0 (w_readlen w).
+Proof. exact drain_complete. Qed.
+
+Example C09_drain_complete_nonvacuous :
+  match ws_decode true ws_init (mkIO (conv_stream wit_conv) [RAvail 4096; RAvail 4096; RAvail 4096]) 7 with
+  | ORet ret _ _ w1 i1 _ =>
+      ret = 7 /\ has_data w1 = true /\ w_readlen w1 = 193 /\
+      let '(rs, w2, i2) := drain (Z.to_nat (w_readlen w1)) w1 i1 7 in
+      has_data w2 = false /\ i2 = i1 /\ zlen (delivered rs) = 193 /\ zlen rs = 28
+  | OFault _ => False
+  end.
+Proof. vm_compute. repeat split; reflexivity. Qed.
